@@ -4,9 +4,12 @@ namespace Csvq.FileBytes
 /-- at the end of the file, a write appends -/
 theorem write_at_end (f : F) (w : List Byte) (h : f.pos = f.bytes.length) :
     write f w = { bytes := f.bytes ++ w, pos := f.bytes.length + w.length } := by
-  simp only [write, h, Nat.le_refl, if_true, List.take_length]
-  have : List.drop (f.bytes.length + w.length) f.bytes = [] := List.drop_eq_nil_of_le (by omega)
-  rw [this, List.append_nil]
+  cases w with
+  | nil => cases f; simp_all [write]
+  | cons x xs =>
+    simp only [write, h, Nat.le_refl, if_true, List.take_length, List.isEmpty_cons, Bool.false_eq_true, if_false]
+    have : List.drop (f.bytes.length + (x :: xs).length) f.bytes = [] := List.drop_eq_nil_of_le (by omega)
+    rw [this, List.append_nil]
 
 theorem writes_at_end (ws : List (List Byte)) : ∀ (f : F), f.pos = f.bytes.length →
     writes f ws = { bytes := f.bytes ++ ws.flatten, pos := f.bytes.length + ws.flatten.length } := by
